@@ -30,7 +30,8 @@ RULE = ("per (handshake flavour, deviant side) the honest message trace "
         "replace(i, T) with T from a pool (HelloRequest, ClientHello, "
         "ServerHello, ChangeCipherSpec, Finished with wrong verify_data, "
         "KeyUpdate, NewSessionTicket, CertificateRequest, application "
-        "data, warning alert, heartbeat) - all single deviations are "
+        "data incl. a zero-length record, warning alert, heartbeat), "
+        "append(T) after the handshake completed - all single deviations are "
         "enumerated, pairs are drawn by Hypothesis; plus post-handshake "
         "renegotiation attempts and handshake calls on open connections. "
         "non-trivial = the sequence delivered to the honest endpoint "
@@ -40,7 +41,8 @@ ASSUMPTIONS = [
     "legality model: no handshake message may be skipped (except "
     "CertificateRequest, TLS 1.3 compatibility CCS, post-handshake "
     "tickets), duplicated, reordered or inserted; deviations touching only "
-    "ignorable messages (TLS 1.3 CCS, warning alerts, heartbeat, "
+    "ignorable messages (TLS 1.3 CCS before the sender's Finished, "
+    "warning alerts, heartbeat, "
     "HelloRequest towards a client) are 'either'",
     "a stall (victim waits for bytes that never come) is 'not completed'",
 ]
@@ -48,7 +50,8 @@ MAX_WALL = {"quick": 240, "thorough": 3000}
 FL = [f for f in sorted(FLAVOURS) if f != "any"]
 POOL = ["hello_request", "client_hello", "server_hello", "ccs",
         "finished_bad", "key_update", "nst13", "cert_request13", "appdata",
-        "warning_alert", "heartbeat", "server_hello_done", "finished_copy"]
+        "warning_alert", "heartbeat", "server_hello_done", "finished_copy",
+        "appdata_empty"]
 
 
 def init(tier, seed):
@@ -113,6 +116,8 @@ def pool_msg(t, trace_c, trace_s, version):
         return (22, b"\x0e\x00\x00\x00")
     if t == "appdata":
         return (23, b"early application data")
+    if t == "appdata_empty":
+        return (23, b"")
     if t == "warning_alert":
         return (21, b"\x01\x5a")
     if t == "heartbeat":
@@ -123,9 +128,13 @@ def pool_msg(t, trace_c, trace_s, version):
 def norm(seq, version, side):
     """Strip messages a receiver may ignore. seq: list of (ct, bytes)."""
     out = []
+    fin_seen = False
     for ct, data in seq:
-        if ct == 20 and version == (3, 4):
-            continue            # compatibility CCS
+        if ct == 22 and data[:1] == b"\x14":
+            fin_seen = True
+        if ct == 20 and version == (3, 4) and not fin_seen:
+            continue            # compatibility CCS (RFC 8446 section 5: to
+            #                     be dropped only until the peer's Finished)
         if ct == 21 and data[:1] == b"\x01" and False:
             continue
         if ct == 24:
@@ -167,12 +176,17 @@ def classify(H, A, version, side):
                 if ct == 22 and ht in (4, 24) and (
                         ht == 24 or side == "s"):
                     continue
+                if ct == 22 and ht == 13 and side == "s":
+                    continue    # post-handshake authentication request
                 if ct == 21:
                     continue
                 legal_post = False
             else:
                 if ct == 23 or ct == 21:
                     continue
+                if ct == 22 and ht == 1 and side == "c":
+                    continue    # renegotiation attempt: may be refused
+                    #             with a warning (judged by the reneg cases)
                 legal_post = False
         return ("late-legal" if legal_post else "late-illegal"), k
     # deviation inside the handshake part
@@ -255,6 +269,19 @@ def check(case):
     if p.both_ok:
         sc.do_write(p, "s", b"x")
         _, post_read = sc.read_all(p, "c")
+        for d in devs:
+            if d[0] != "append":
+                continue
+            m = pool_msg(d[2], log["c"], log["s"], version)
+            if m is None:
+                continue
+            dev = holder["dev"]
+            dev.emitted.append((m[0], bytes(m[1])))
+            outs, _ = drive({side: dev._orig_send(RawMsg(m[0], m[1]))},
+                            p.link, on_stall="leave")
+            if side == "s" and post_read is not None and \
+                    post_read.state != "exc":
+                post_read = None
     A = [(ct, d) for ct, d in holder["dev"].emitted if ct in (20, 21, 22, 23,
                                                               24)]
     H = [(ct, d) for ct, ht, d in trace]
@@ -438,7 +465,8 @@ def dev_strategy():
         st.tuples(st.just("skip"), i), st.tuples(st.just("dup"), i),
         st.tuples(st.just("swap"), i),
         st.tuples(st.just("insert"), i, t),
-        st.tuples(st.just("replace"), i, t)).map(list)
+        st.tuples(st.just("replace"), i, t),
+        st.tuples(st.just("append"), st.just(0), t)).map(list)
 
 
 @st.composite
@@ -477,6 +505,9 @@ def explicit(tier, seed):
                 for t in (POOL if tier == "thorough" else POOL[i % 3::3]):
                     yield {"k": "dev", "fl": fl, "side": side,
                            "devs": [["replace", i, t]]}
+            for t in POOL:
+                yield {"k": "dev", "fl": fl, "side": side,
+                       "devs": [["append", 0, t]]}
         for kind in ("api", "client_hello_to_server",
                      "hello_request_to_client", "server_hello_to_client",
                      "finished_to_server", "ccs_to_server"):
